@@ -1008,6 +1008,64 @@ fn posraw_cases(r: &mut Rng, t: Tier, out: &mut Vec<Case>) {
     out.push(c);
 }
 
+/// every construction path of the quad vectors (and of the trees from inexact iterators): builder `new()` /
+/// `with_capacity(c)` + pushes, `extend` from iterators without an exact size hint, `collect` from such an
+/// iterator, RSQVector from a built vector — same content, same retained memory, equal values
+fn qv_path_cases(r: &mut Rng, t: Tier, n_cases: usize, space: bool, out: &mut Vec<Case>) {
+    for i in 0..n_cases {
+        let mut c = Case::new("qvpaths");
+        let cfg = QWT_CFGS[i % 4];
+        c.l(format!("cfg {} {} 8 * u8", cfg.0, cfg.1 as u8));
+        let n = match i % 4 {
+            0 => *r.pick(&[0usize, 1, 255, 256, 257, 511, 512, 513, 768, 1279, 1280]),
+            1 => 256 * r.range(1, 40) as usize + r.below(3) as usize,
+            _ => some_len(r, scale(t, 20_000, 300_000)),
+        };
+        let sh = r.below(8);
+        let vals = shaped_seq(r, n, &[0, 1, 2, 3], sh);
+        let js = join(&vals);
+        let cap = *r.pick(&[0usize, 1, n / 2, n, n + 1, 2 * n + 300, 4096]);
+        c.tag(format!("lenclass={}", len_class(n)));
+        c.tag(format!("cap={}", if cap == 0 { "0" } else if cap < n { "<n" } else if cap == n { "n" } else { ">n" }));
+        c.nontrivial = n >= 2;
+        let mks = [
+            format!("mk 0 qv:i64 {}", js),
+            format!("mk 1 qvx {}", js),
+            format!("mk 2 qvpush - {}", js),
+            format!("mk 3 qvpush {} {}", cap, js),
+            format!("mk 4 qvext - {}", js),
+            format!("mk 5 qvext {} {}", cap, js),
+            format!("mk 6 rsq {} {}", cfg.0, js),
+            format!("mk 7 rsq:inexact {} {}", cfg.0, js),
+            format!("mk 8 rsq:frombuilder {} {}", cfg.0, js),
+            format!("mk 9 qwt:iterx {}", js),
+            format!("mk 10 qwt:new {}", js),
+        ];
+        for (k, mk) in mks.iter().enumerate() {
+            c.l(mk.trim_end().to_string());
+            if space {
+                c.l(format!("space {}", k));
+            }
+        }
+        for k in 1..=5 {
+            c.l(format!("eq 0 {}", k));
+        }
+        c.l("eq 6 7");
+        c.l("eq 6 8");
+        c.l("eq 9 10");
+        c.l("dump 3");
+        c.l("dump 5");
+        c.l("dump 8");
+        for k in [1usize, 3, 5] {
+            c.l(format!("q {} len", k));
+            c.l(format!("q {} get {}", k, n / 2));
+            c.l(format!("q {} get {}", k, n.saturating_sub(1)));
+            c.l(format!("q {} get {}", k, n));
+        }
+        out.push(c);
+    }
+}
+
 fn utils_cases(r: &mut Rng, t: Tier, out: &mut Vec<Case>) {
     // select_in_word: crafted words exhaustive over (byte value, k in byte, byte position)
     let mut c = Case::new("utils");
@@ -1475,7 +1533,10 @@ pub fn cases(prop: &str, t: Tier, seed: u64) -> Vec<Case> {
             qv_history_cases(r, t, scale(t, 24, 120), &mut out);
             rsq_cases(r, t, &["iter", "fwdhist", "fwdhist_into"], &[], scale(t, 10, 60), &mut out);
         }
-        "C13" => qv_history_cases(r, t, scale(t, 120, 900), &mut out),
+        "C13" => {
+            qv_history_cases(r, t, scale(t, 120, 900), &mut out);
+            qv_path_cases(r, t, scale(t, 10, 60), false, &mut out);
+        }
         "C14" | "C16" => {
             let ex = ["space 0", "q 0 len", "q 0 n_levels"];
             tree_family_cases(r, t, "qwt", &["sigma"], &ex, scale(t, 48, 300), &mut out);
@@ -1514,6 +1575,7 @@ pub fn cases(prop: &str, t: Tier, seed: u64) -> Vec<Case> {
                     out.push(c);
                 }
             }
+            qv_path_cases(r, t, scale(t, 12, 60), true, &mut out);
             rsq_cases(r, t, &["len"], &["space 0"], scale(t, 24, 150), &mut out);
             rsbin_cases(r, t, if prop == "C14" { &["rsw"] } else { &["rsw", "rsn"] }, &[], &["space 1", "space 0"], scale(t, 24, 150), &mut out);
             // a few large inputs so that the per-level constant is negligible
